@@ -346,7 +346,18 @@ class GenericTranspiler(object):
     origin_info.resolve_entity(node, source, fn)
 
     namespace = inspect_utils.getnamespace(fn)
-    namer = naming.Namer(namespace)
+    # Generated symbols must not clash with any identifier that occurs in the
+    # function, including those which the activity analysis does not report as
+    # referenced (comprehension targets, lambda arguments, handler names).
+    reserved_names = set(namespace)
+    for n in ast.walk(node):
+      if isinstance(n, ast.Name):
+        reserved_names.add(n.id)
+      elif isinstance(n, ast.arg):
+        reserved_names.add(n.arg)
+      elif isinstance(n, ast.ExceptHandler) and n.name:
+        reserved_names.add(n.name)
+    namer = naming.Namer(reserved_names)
     new_name = namer.new_symbol(self.get_transformed_name(node), ())
     entity_info = transformer.EntityInfo(
         name=new_name,
